@@ -870,7 +870,12 @@ def _parse_phase_numpydoc_and_google(
             "returns": (
                 OrderedDict(
                     (
-                        _interpolate_defaults_and_force_future_default(
+                        partial(
+                            interpolate_defaults,
+                            emit_default_doc=emit_default_doc,
+                            require_default=False,
+                            default_search_announce=default_search_announce,
+                        )(
                             _set_name_and_type(
                                 (
                                     "return_type",
